@@ -316,8 +316,26 @@ func TestVerifC39Replicator(t *testing.T) {
 	if r.Thorough() {
 		plans = append(plans, plan{"mvregister", 3, 2, 1, 1}, plan{"ormap", 3, 3, 0, 0})
 	}
+	// cumulative deadlines, proportional to the expected size of the scenarios (time a scenario does
+	// not use is inherited by the later ones)
+	weight := func(p plan) float64 {
+		w := 1.0
+		if p.reps >= 3 || p.L >= 3 {
+			w = 3
+		}
+		if p.reps >= 3 && p.L >= 3 {
+			w = 9
+		}
+		return w
+	}
+	sum := 0.0
+	for _, pl := range plans {
+		sum += weight(pl)
+	}
 	start := time.Now()
-	for k, pl := range plans {
-		c39rScenario(t, specs[pl.name], pl.reps, pl.L, pl.D, pl.F, c41Deadline(start, float64(k+1)/float64(len(plans))))
+	acc := 0.0
+	for _, pl := range plans {
+		acc += weight(pl)
+		c39rScenario(t, specs[pl.name], pl.reps, pl.L, pl.D, pl.F, c41Deadline(start, acc/sum))
 	}
 }
